@@ -39,7 +39,6 @@ def _add_to_elements(elements, elem, inside):
 DEFAULT_FIRST_ELEMENT = ('root', GETATTR)
 
 
-@lru_cache(maxsize=1024 * 128)
 def _path_to_elements(path, root_element=DEFAULT_FIRST_ELEMENT):
     """
     Given a path, it extracts the elements that form the path and their relevant most likely retrieval action.
@@ -50,7 +49,14 @@ def _path_to_elements(path, root_element=DEFAULT_FIRST_ELEMENT):
         [(4.3, 'GET'), ('b', 'GETATTR'), ('a3', 'GET')]
     """
     if isinstance(path, (tuple, list)):
+        # Already parsed. Must not go through the cache: tuples that are == but hold keys of
+        # different types (1 and 1.0) would be served each other's elements.
         return path
+    return _parse_path_to_elements(path, root_element)
+
+
+@lru_cache(maxsize=1024 * 128)
+def _parse_path_to_elements(path, root_element=DEFAULT_FIRST_ELEMENT):
     elements = []
     if root_element:
         elements.append(root_element)
